@@ -86,6 +86,44 @@ func NewStakeCtrler(config *cfg.Config, govHandler ctrlertypes.IGovHandler, logg
 	return ret, nil
 }
 
+// RestoreValidators rebuilds `lastValidators` after a restart.
+// EndBlock of the last committed block N selected it from the delegatees committed at N-1,
+// with the governance parameters that were in force during block N (those committed at N-1).
+// Without it the restarted node answers IsValidator()/Validators() with an empty set, keeps the
+// stake limiter off and re-announces every validator in its next EndBlock.
+func (ctrler *StakeCtrler) RestoreValidators(paramsAt func(int64) (*ctrlertypes.GovParams, xerrors.XError)) xerrors.XError {
+	ctrler.mtx.Lock()
+	defer ctrler.mtx.Unlock()
+
+	lastHeight := ctrler.delegateeLedger.Version()
+	if lastHeight < 2 {
+		// block 1 is executed on an empty tree: no validator was selected yet
+		return nil
+	}
+	prevParams, xerr := paramsAt(lastHeight - 1)
+	if xerr != nil {
+		return xerr
+	}
+	prevLedger, xerr := ctrler.delegateeLedger.ImmutableLedgerAt(lastHeight-1, 128)
+	if xerr != nil {
+		return xerr
+	}
+
+	var delegatees DelegateeArray
+	minPower := ctrlertypes.AmountToPower(prevParams.MinValidatorStake())
+	if xerr := prevLedger.IterateReadAllItems(func(d *Delegatee) xerrors.XError {
+		if d.SelfPower >= minPower {
+			delegatees = append(delegatees, d)
+		}
+		return nil
+	}); xerr != nil {
+		return xerr
+	}
+	sort.Sort(PowerOrderDelegatees(delegatees))
+	ctrler.lastValidators = selectValidators(PowerOrderDelegatees(delegatees), int(prevParams.MaxValidatorCnt()))
+	return nil
+}
+
 func (ctrler *StakeCtrler) InitLedger(req interface{}) xerrors.XError {
 	// init validators
 	ctrler.mtx.Lock()
